@@ -233,8 +233,7 @@ def prunePathsA (treeSep : Str) (s1 : Store) (r : Nat) (paths : List Str) (exact
   if paths.isEmpty then .ok s1 else
   (locateA treeSep (ancNames s1 r) (toTree s1 s1.n r) sepArg paths).map fun N =>
     let A0 := N.flatMap (ancestors s1 s1.n)
-    let A := if exact then A0 ++ N
-      else A0.filter fun a => !(N.contains a) && !((ancestors s1 s1.n a).any N.contains)
+    let A := if exact then A0 ++ N else A0
     detachLoop A N s1
 
 /-- `prune_tree(v, paths, exact, sep, max_depth)`: copy, locate, detach, depth cut; returns the
